@@ -576,6 +576,9 @@ def replay(ctx, path):
     if ctx.prop in REPLAY_FNS:
         return REPLAY_FNS[ctx.prop](ctx, path)
     invs = TRACE_INVS.get(ctx.prop, [])
-    res = tlc_trace(ctx, "ShredTrace", path, invs)
+    module = "ShredTrace"
+    if ctx.prop == "C11":
+        module, invs = "RendezvousTrace", ["InvC11"]
+    res = tlc_trace(ctx, module, path, invs)
     if not res["accepted"]:
         raise Violation(ctx.prop, "invariant %s fails on replay" % res["violated"], path)
